@@ -399,3 +399,7 @@ mod cell_tests {
         assert!(intersection)
     }
 }
+
+#[cfg(kani)]
+#[path = "/verif/kani/cell.rs"]
+mod verif_kani;
